@@ -8,10 +8,10 @@ hx = S.hx
 
 
 def model_checks(chk):
-    for cfg, must in (("MC_ReqRep_ok", True), ("MC_ReqRep_recv_takes_m", False), ("MC_ReqRep_send_ignores", False), ("MC_ReqRep_recv_any_pee", False)):
+    for cfg, must in (("MC_ReqRep_ok", True), ("MC_ReqRep_recv_takes_m", False), ("MC_ReqRep_marker_after", False), ("MC_ReqRep_send_ignores", False), ("MC_ReqRep_recv_any_pee", False)):
         r = vlib.tlc("ReqRep", cfg + ".cfg", chk.wd, timeout=600, coverage=must)
         if must:
-            chk.model_must_hold(r, "ReqRep: REQ marker mechanism refines the lock-step state machine over all call sequences (2 peers, 6 calls, drops, unsolicited replies)")
+            chk.model_must_hold(r, "ReqRep: REQ marker mechanism refines the lock-step state machine over all call sequences (2 peers, 6 calls, recv and send abandoned at their suspension points, unsolicited replies)")
         else:
             chk.model_must_fail(r, "ReqRep spec mutant " + cfg)
     for cfg, must in (("MC_RepSock_ok", True), ("MC_RepSock_send_keeps_r", False), ("MC_RepSock_reply_to_low", False)):
@@ -116,7 +116,8 @@ def rep_script(seq, scen):
         elif o == "req2":
             n2 += 1; ops.append({"op": "psend", "c": 2, "m": [hx("route%d" % n2), hx("hop"), hx(""), hx("c2q%d" % n2), hx(""), hx("y" * 256)]})
         elif o == "bad1":
-            n1 += 1; ops.append({"op": "psend", "c": 1, "m": [hx("lonely%d" % n1)]})
+            # a request that violates REP's envelope rule: a single frame, or (every other scenario) several frames without a delimiter
+            n1 += 1; ops.append({"op": "psend", "c": 1, "m": [hx("lonely%d" % n1)] if scen % 2 else [hx("nodelim%d" % n1), hx("payload"), hx("more")]})
         elif o == "send":
             ns += 1; ops.append({"op": "send", "m": [hx("rep%d" % ns)] if ns % 2 else [hx("rep%d" % ns), hx(""), hx("z" * 70000)]})
         else:
